@@ -73,7 +73,10 @@ def importIntoF : Nat → Val → Dyn → Val × Option ErrClass
     | .cell _ f t =>
       match x with
       | .nil => (.cell .nil f t, none)
-      | .val (.row ms) => (.cell (.val (.row ms)) .auto .none, none)   -- an incoming Row is kept as it is
+      | .val (.row ms) =>
+        -- an incoming Row is kept as it is by Auto / Hidden columns; the column keeps its format
+        if f == .auto || f == .hidden then (.cell (.val (.row ms)) f t, none)
+        else (.cell .nil f t, some .unsupportedFormat)
       | .val v => (.cell (raw v) (format v) (rawType v), none)
       | _ =>
         if (f == .auto || f == .hidden) && t == .none then (.cell x f t, none)
